@@ -170,6 +170,11 @@ func checkC17Req(t *testing.T, rq *Request, rec *Recorder) []Diff {
 	}
 	off, err1 := run(false)
 	on, err2 := run(true)
+	if rq.CancelAtUs > 0 && (err1 != nil || err2 != nil) {
+		// a cancelled request may fail (the property is about what is returned as a document)
+		rec.Case(scenarioKey(rq), false, nil, "other:cancelled-failed")
+		return nil
+	}
 	if err1 != nil || err2 != nil {
 		rec.Case(scenarioKey(rq), false, nil, "other:failed")
 		return []Diff{{"C09", "run-error", fmt.Sprintf("%v / %v", err1, err2)}}
@@ -215,7 +220,7 @@ func checkC17Req(t *testing.T, rq *Request, rec *Recorder) []Diff {
 }
 
 func TestC17Request(t *testing.T) {
-	rec := NewRecorder("C17", "C17Request", "rapid: RunTraceroute and the HTTP handler over simulated worlds whose routers have boundary private/public addresses (IPv4 and IPv6), skip-private-hops on vs off, reverse DNS on with a scripted resolver; oracle: same predicate on the emitted documents, flag off redacts nothing; non-trivial = >= 1 private and >= 1 public router on the path")
+	rec := NewRecorder("C17", "C17Request", "rapid: RunTraceroute and the HTTP handler over simulated worlds whose routers have boundary private/public addresses (IPv4 and IPv6), skip-private-hops on vs off, reverse DNS on with a scripted resolver, a third of the requests with the caller cancelling while the runs are in flight; oracle: same predicate on the emitted documents, flag off redacts nothing; non-trivial = >= 1 private and >= 1 public router on the path")
 	RunProp(t, rec, func(rt *rapid.T) *Request {
 		rq := &Request{HTTP: rapid.Bool().Draw(rt, "http")}
 		v6 := rapid.Bool().Draw(rt, "v6")
@@ -252,6 +257,11 @@ func TestC17Request(t *testing.T) {
 		}
 		rq.Scripts = []FlowScript{s}
 		rq.DNSDefault = DNSScript{Names: []string{"router.example."}}
+		// the caller may go away while the runs are in flight; the udp and tcp engines finish anyway, and what is
+		// then returned as a success must be redacted like any other document
+		if oneOf(rt, "caller_cancels", false, false, true) {
+			rq.CancelAtUs = int64(rapid.IntRange(1, 250_000).Draw(rt, "cancel_at_us"))
+		}
 		return rq
 	}, checkC17Req)
 }
